@@ -139,3 +139,61 @@ Definition carriers (r : decode_result) (a : allele) : Z :=
 
 Definition counts_eqb (a b : list (option allele * Z)) : bool :=
   list_eqb (fun x y => okey_eqb (fst x) (fst y) && (snd x =? snd y)) a b.
+
+(* ---- Variant.states(missing_data_string) (genotypes.py 248-275) --------------------------- *)
+Definition states_model (mds : allele) (r : decode_result) : res (list allele) :=
+  let '(g, al, hm) := r in
+  if hm then
+    if existsb (allele_eqb mds) al then Err PY_VALUE_ERROR      (* "in alleles" *)
+    else mapM (py_getitem (al ++ [mds])) g                      (* alleles[:-1] + (mds,) *)
+  else mapM (py_getitem al) g.
+
+(* Variant.num_alleles = len(alleles) - has_missing_data ; num_missing = sum(genotypes == -1) *)
+Definition num_alleles_model (r : decode_result) : Z :=
+  let '(_, al, hm) := r in zlen (py_alleles r) - (if hm then 1 else 0).
+Definition num_missing_model (r : decode_result) : Z :=
+  let '(g, _, _) := r in count_eq g MISSING.
+
+(* ---- TreeSequence.genotype_matrix (trees.py 5552-5566): one Variant, decode(site) for every
+   site in order, row = genotypes; the first failing decode aborts with its error --------------- *)
+Definition genotype_matrix_model (fuel : nat) (v : variant) (sites : list (tree * site))
+  : res (list (list Z)) :=
+  mapM (fun p => do r <- decode fuel (fst p) v (snd p); Ok (fst (fst r))) sites.
+
+(* ---- TreeSequence.alignments, complete (trees.py 5667-5727) ----------------------------------
+   Coordinates are given doubled (so that half-integers are representable): an integer
+   coordinate is an even number. *)
+Definition PY_LIBRARY_ERROR : Z := 3.
+
+Record align_in := mkAlignIn {
+  ai_discrete : bool;                      (* ts.discrete_genome *)
+  ai_L2 : Z; ai_left2 : Z; ai_right2 : Z;  (* sequence length and interval, doubled *)
+  ai_ref : option (list Z);                (* reference_sequence argument *)
+  ai_embedded : option (list Z);           (* ts.reference_sequence.data if has_reference_sequence *)
+  ai_mdc : Z;                              (* missing_data_character (default 'N') *)
+  ai_isolated : bool;                      (* some tree has an isolated sample *)
+  ai_init_error : bool;                    (* Variant(samples, isolated_as_missing=True) fails *)
+  ai_nsamples : Z;
+  ai_pos : list Z;                         (* integer positions of the sites in the interval *)
+  ai_results : list decode_result }.       (* per-site decode results in the interval *)
+
+Definition alignments_full (a : align_in) : res (list (list Z)) :=
+  if negb (ai_discrete a) then Err PY_VALUE_ERROR else
+  do _iv <- check_range (ai_L2 a) (ai_left2 a) (ai_right2 a);
+  if negb (Z.even (ai_left2 a) && Z.even (ai_right2 a)) then Err PY_VALUE_ERROR else
+  let left := ai_left2 a / 2 in let right := ai_right2 a / 2 in
+  let L := right - left in
+  let ref := match ai_ref a with
+             | Some r => r
+             | None => match ai_embedded a with
+                       | Some d => firstn (Z.to_nat L) (skipn (Z.to_nat left) d)   (* data[left:right] *)
+                       | None => repeat (ai_mdc a) (Z.to_nat L)
+                       end
+             end in
+  if negb (zlen ref =? L) then Err PY_VALUE_ERROR else
+  if ai_isolated a then Err PY_VALUE_ERROR else
+  if ai_init_error a then Err PY_LIBRARY_ERROR else
+  do rows <- haplotypes_model (ai_mdc a) (ai_nsamples a) (ai_results a);
+  alignments_loop ref left (ai_pos a) rows.
+
+Definition alleles_list_eqb := list_eqb allele_eqb.
